@@ -141,3 +141,21 @@ package message
 //@   loop 1 invariant forall id graphsync.RequestID :: (id in responses) == seen1[id]
 //@   loop 1 invariant forall id graphsync.RequestID :: seen1[id] ==> responses[id].requestID == id && responses[id].metadata == b.outgoingResponses[id]
 //@             && responses[id].status == ite(id in b.completedResponses, b.completedResponses[id], graphsync.PartialResponse)
+
+//@ -- C01 / C02: the implementation of graphsync.LinkMetadata that decoded responses carry visits its entries once each,
+//@ -- in order, with the entry's link and action (this is what the interface-level `iterates` contract used by the
+//@ -- reconciled loader assumes of LinkMetadata.Iterate)
+//@ ghost itN int       -- calls of the iterator function made so far
+//@ func GraphSyncLinkMetadata.Iterate$iter
+//@   assumed
+//@   modifies itN
+//@   ghost itN := old(itN) + 1
+//@ func GraphSyncLinkMetadata.Iterate
+//@   requires iter != nil
+//@   modifies itN
+//@   callsite $iter: assert 0 <= itN - old(itN) && itN - old(itN) < len(gslm.linkMetadata) && arg0 == gslm.linkMetadata[itN - old(itN)].Link && arg1 == gslm.linkMetadata[itN - old(itN)].Action
+//@   loop 1 invariant itN == old(itN) + idx1
+//@   ensures itN == old(itN) + len(gslm.linkMetadata)
+//@ func GraphSyncLinkMetadata.Length
+//@   modifies nothing
+//@   ensures result == len(gslm.linkMetadata)
